@@ -32,6 +32,11 @@ func (e *Engine) lemmaObls(lm *Lemma) (obls []*Obligation, err error) {
 		e.assume(fmt.Sprintf("lemma %s imported, not proved here: %s", lm.Name, lm.Trusted))
 		return nil, nil
 	}
+	if lm.Lifted != "" {
+		// proved as `lift` obligations of the function itself (verify.go); usable by callers' proofs through `use`
+		e.assume(fmt.Sprintf("lemma %s is the verified behaviour of %s lifted over its functional abstraction (needs: %s is a deterministic function of its arguments, M2)", lm.Name, lm.Lifted, lm.Lifted))
+		return nil, nil
+	}
 	x := e.specExec("R")
 	x.key = "lemma." + lm.Name
 	x.fuel = lm.Fuel
@@ -73,7 +78,13 @@ func (e *Engine) lemmaObls(lm *Lemma) (obls []*Obligation, err error) {
 	}
 	if lm.Induction != "" {
 		k := Term{"l!" + lm.Induction, SInt}
-		ih := mkEnv(map[string]Term{lm.Induction: Sub(k, Int(1))})
+		step := Int(1)
+		if lm.Step != "" {
+			step = Term{"l!" + lm.Step, SInt}
+			// well-foundedness of the step
+			x.oblige(st, "lemma", "step-positive", Cmp(">=", step, Int(1)), 0, "induction step "+lm.Step+" >= 1")
+		}
+		ih := mkEnv(map[string]Term{lm.Induction: Sub(k, step)})
 		var pre, post []Term
 		for _, r := range lm.Requires {
 			pre = append(pre, asTerm(x.evalSpec(ih, r.E)))
@@ -85,7 +96,7 @@ func (e *Engine) lemmaObls(lm *Lemma) (obls []*Obligation, err error) {
 		// bound k from below by a term that does not mention k (then P holds vacuously below the bound), or the
 		// hypothesis is only available for k-1 >= 0 and P(k) for k <= 0 has to be proved without it.
 		if !lowerBounded(lm.Requires, lm.Induction) {
-			pre = append(pre, Cmp("<=", Int(0), Sub(k, Int(1))))
+			pre = append(pre, Cmp("<=", Int(0), Sub(k, step)))
 		}
 		st.assume(Implies(And(pre...), And(post...)), "induction-hypothesis")
 	}
@@ -93,6 +104,9 @@ func (e *Engine) lemmaObls(lm *Lemma) (obls []*Obligation, err error) {
 	for i, u := range lm.Uses {
 		x.useLemma(st, env, u, "lemma", i)
 	}
+	// vacuity guard: requires + induction hypothesis + instantiated lemmas must be satisfiable
+	co := x.oblige(st, "cover", "cover/hyps", TFalse, 0, "lemma hypotheses are consistent (must fail)")
+	co.Expect = "sat"
 	for i, en := range lm.Ensures {
 		g := asTerm(x.evalSpec(env, en.E))
 		for j, cj := range splitConj(g) {
